@@ -714,6 +714,19 @@ def run(ctx):
         archs = [a for a in core.shipped_archs()]
     else:
         archs = QUICK_ARCHS["x86"] + QUICK_ARCHS["aarch64"]
+        # a model that switches hidden loads on pairs loads with stores by line-number distance (`set_hidden_loads`), the one
+        # place where lines without instructions can matter: such models are always part of the end-to-end runs
+        import re as _re
+
+        for a in core.shipped_archs():
+            if a not in archs:
+                try:
+                    head = open(os.path.join(core.REPO, "osaca", "data", a + ".yml"), encoding="utf-8").read(20000)
+                except OSError:
+                    continue
+                if _re.search(r"(?m)^hidden_loads:\s*(true|True|yes|on)\b", head):
+                    archs.append(a)
+                    ctx.count("models_with_hidden_loads")
     ctx.env = core.Env("C11", archs=archs)
     ctx.env.activate()
     import osaca.osaca as O
